@@ -231,7 +231,7 @@ def stepAct (s : State) (a : Nat) : Option (State × Obs) :=
       | .thread q th :: rest => some (s.goto a (.wtCs q th (.waking rest k)), .silent)
       | .latch l :: rest => some (s.goto a (.lwCs l (.waking rest k)), .silent)
       | .double d :: rest => some (s.goto a (.dwCs d (.waking rest k)), .silent)
-      | .task b :: rest => some ((s.setWoken b true).goto a (.waking rest k), .taskWake b)
+      | .task th :: rest => some (({ s with taskWoken := if s.taskWoken.contains th then s.taskWoken else th :: s.taskWoken }).goto a (.waking rest k), .taskWake th)
   | .openSend g k =>
       match s.gates[g]? with
       | none => none
@@ -465,8 +465,26 @@ def stepAct (s : State) (a : Nat) : Option (State × Obs) :=
           | some fu =>
             let s1 := s.setFut r { fu with res := .ok, waker := none }
             match fu.waker with
-            | some w => some (s1.goto a (.waking [w] (.jobDrop j kr)), .csR r)
-            | none => some (s1.goto a (.jobDrop j kr), .csR r)
+            | some w => some (s1.goto a (.waking [w] (.jobSigDrop j kr)), .csR r)
+            | none => some (s1.goto a (.jobSigDrop j kr), .csR r)
+  | .jobSigDrop j kr =>
+      match s.jobs[j]? with
+      | none => none
+      | some jb =>
+        let res := match jb.kind with | .fut _ _ r => some r | .after _ _ r => some r | _ => none
+        match res with
+        | none => none
+        | some r =>
+          match s.futs[r]? with
+          | none => none
+          | some fu =>
+            -- Drop for SchedulerFutureSignaller: cancels only if no result was ever set
+            if fu.res == .none then
+              let s1 := s.setFut r { fu with res := .canceled, waker := none }
+              match fu.waker with
+              | some w => some (s1.goto a (.waking [w] (.jobDrop j kr)), .csR r)
+              | none => some (s1.goto a (.jobDrop j kr), .csR r)
+            else some (s.goto a (.jobDrop j kr), .csR r)
   | .jobDrop j kr =>
       match s.jobs[j]? with
       | none => none
@@ -566,10 +584,10 @@ def stepAct (s : State) (a : Nat) : Option (State × Obs) :=
       | none => none
       | some fu =>
         let store := match next with | .dqCheck _ => false | _ => true
-        let s1 := if store then s.setFut f { fu with waker := some (.task a) } else s
+        let s1 := if store then s.setFut f { fu with waker := some (.task t) } else s
         some (s1.goto a next, .csR f)
   | .pfBlocked f =>
-      if act.woken then some ((s.setWoken a false).goto a (.pfPoll f), .silent) else none
+      if s.taskWoken.contains t then some (({ s with taskWoken := s.taskWoken.filter (· != t) }).goto a (.pfPoll f), .silent) else none
   | .dqCheck f =>
       match s.futs[f]? with
       | none => none
@@ -607,13 +625,13 @@ def stepAct (s : State) (a : Nat) : Option (State × Obs) :=
   | .dqStore f l =>
       match s.futs[f]? with
       | none => none
-      | some fu => some ((s.setFut f { fu with waker := some (.task a) }).goto a (.dqSetWfp f l), .csR f)
+      | some fu => some ((s.setFut f { fu with waker := some (.task t) }).goto a (.dqSetWfp f l), .csR f)
   | .dqSetWfp f l =>
       match s.futs[f]? with
       | none => none
       | some fu =>
         let d := s.doubles.length
-        let s1 := { s with doubles := s.doubles ++ [some (Waker.queue fu.q, Waker.task a)] }
+        let s1 := { s with doubles := s.doubles ++ [some (Waker.queue fu.q, Waker.task t)] }
         some (((s1.setQState fu.q (.waitingForPoll f)).setHolder fu.q none).goto a (.dqWakeWith f l (.double d) (.pfBlocked f)), .csQ fu.q)
   | .dqWakeWith _ l w k =>
       match s.latches[l]? with
@@ -625,7 +643,7 @@ def stepAct (s : State) (a : Nat) : Option (State × Obs) :=
   | .dqStore2 f =>
       match s.futs[f]? with
       | none => none
-      | some fu => some ((s.setFut f { fu with waker := some (.task a) }).goto a (.dqIdle2 f), .csR f)
+      | some fu => some ((s.setFut f { fu with waker := some (.task t) }).goto a (.dqIdle2 f), .csR f)
   | .dqIdle2 f =>
       match s.futs[f]? with
       | none => none
@@ -745,6 +763,16 @@ def spuriousUnpark (s : State) (a : Nat) : Option (State × Obs) :=
   | some act =>
     match act.pc with
     | .rjParked q j k => some (s.goto a (.rjParkCheck q j k), .unparked)
+    | _ => none
+  | none => none
+
+/-- An executor may poll a pending future again without its waker having fired (shuttle's block_on
+does so whenever the thread had a contended lock since it last slept). -/
+def spuriousPoll (s : State) (a : Nat) : Option State :=
+  match s.acts[a]? with
+  | some act =>
+    match act.pc with
+    | .pfBlocked f => some (s.goto a (.pfPoll f))
     | _ => none
   | none => none
 
